@@ -144,13 +144,14 @@ CLAIMED = {
         "`|` between stage k and k+1, for all pipeline lengths: stdin of stage k+1 is the read end of a pipe created for this separator; an "
         "unredirected or a>p stdout goes into that pipe; e>p sends stderr into it and leaves a file-redirected stdout alone; otherwise stderr is "
         "untouched; a trailing & only backgrounds the last stage; the first stage keeps its stdin; one pipe per `|` (loop invariant over the "
-        "processed separators, index-form slot updates); (3) no a>p / e>p sentinel survives without a following pipe (error). The three setters on "
+        "processed separators, index-form slot updates); (3) no a>p / e>p sentinel survives without a following pipe (error). SubprocSpec.resolve_redirects (a stage's own redirects, applied in "
+        "order through the real setters, loop invariants): on a normal return every stream was named by at most one redirect and holds exactly that one. The three setters on "
         "their own: first non-None store wins, a second one raises XonshError IFF both are non-None, changes nothing and closes the rejected "
         "handle. Enum (complete): all 50 redirect spellings of the real tokenizer tables through the real parser (one redirect token, target "
         "taken iff one-sided) and the real _redirect_streams decode to the class their stream names denote - all spellings of a class agree. "
         "Bounded stand-in (not counted as proved): real cmds_to_specs on every pipeline of <= 3 (thorough 4) stages x 9 redirect forms x trailing &.",
-   note="Unverified: that the OS delivers bytes written to an fd to the file / pipe behind it; SubprocSpec.build (alias resolution, resolve_redirects "
-        "looping the setters over a stage's redirects - covered only by the bounded pipelines: two redirects of one stream are errors), the capture "
+   note="Unverified: that the OS delivers bytes written to an fd to the file / pipe behind it; SubprocSpec.build as a whole (alias resolution, decorators; resolve_redirects "
+        "is verified, _redirect_streams is a ghost function there and checked by the spelling enum), the capture "
         "boundary / _update_last_spec (C06), alias-side handle resolution (ProcProxyThread._get_handles, _pick_buf), stage kinds other than "
         "external `echo` in the bounded check, missing target files (safe_open's three error branches). ASSUMED for (2): no stage leaves build "
         "with both pipe sentinels (each sets stderr; the second store is rejected by the setter). Trusted: pyvc engine + object-record model "
